@@ -209,7 +209,7 @@ def pow_out_of_range(c):
         for x in c["lo"] + c["hi"]:
             if x != 0.0:
                 v = float(np.power(np.float64(abs(x)), k))
-                if v == 0.0 or math.isinf(v):
+                if v < 1e-290 or v > 1e290:          # incl. subnormal results and overflowing reciprocals
                     return True
     return False
 
@@ -409,7 +409,9 @@ def same_float(x, y, fn):
         return True
     if math.isnan(x) or math.isnan(y) or math.isinf(x) or math.isinf(y):
         return False
-    if fn in ("pow", "sig", "tanh"):
+    if fn in ("sig", "tanh"):       # intermediates of size ~1: a few ulp of 1 (as in the oracle's tolerance)
+        return abs(x - y) <= 4 * core.ulp(max(abs(x), abs(y), 1.0))
+    if fn == "pow":
         return abs(x - y) <= 4 * core.ulp(max(abs(x), abs(y)))
     return False
 
@@ -637,9 +639,10 @@ def gen_cases(ctx):
             xs = [rng.choice(good) for _ in range(n)]
             r = rng.random()
             if r < 0.6:
-                xs[rng.randrange(n)] = (rng.choice(below), rng.choice(his))
+                xs[rng.randrange(n)] = (rng.choice(below + ([0.0, -0.0] if fn == "log" else [])), rng.choice(his))
             elif r < 0.85:
-                xs[rng.randrange(n)] = (rng.choice(inside), rng.choice(his))
+                e_lo = rng.choice(inside)
+                xs[rng.randrange(n)] = (e_lo, max(e_lo, rng.choice(his)))
             form = "A2" if (n in (4, 6) and rng.random() < 0.4) else "A"
             cases.append(mk("domain-edge-array", fn, form, rng.choice(["method", "ufunc", "func"]),
                             [x[0] for x in xs], [x[1] for x in xs]))
@@ -793,12 +796,20 @@ def run(ctx: core.Check, cases=None):
                 "sigmoid/tanh on all ordered pairs of 14 points (negative/straddling/positive/outside the domain), "
                 "arrays and random doubles over 8 decades; X**k for k=-4..6 on all integer-endpoint intervals in "
                 "[-3,3] plus half-integers, arrays, random doubles, int/np.int64/float/bool exponents. "
+                "Further streams: widths EXACTLY equal to the period in binary64 (+-1 ulp); abs of arrays mixing zero-containing and "
+                "zero-free elements; powers of straddling intervals with either endpoint dominating; every numpy integer class as "
+                "exponent; valid extreme arguments of exp/sigmoid/tanh (beyond +-709.78, +-745.13, +-354.9, mixed-sign wide, arrays "
+                "mixing moderate and extreme); sqrt/log with lo just below 0 (-5e-324 ... -1e-9) and just inside, through method, "
+                "np.<ufunc> and methods.<fn>; arrays whose elements have an endpoint exactly on a multiple of pi/2; powers whose "
+                "endpoint powers underflow/overflow.  The operand is checked for in-place modification after every call. "
                 "A case is non-trivial unless it is the single point 0 or 1; distinctness on (fn,form,entry,lo,hi,k,kind).")
     ctx.assumptions = [
         "binary64 rounding is not modelled; numpy's exp/log/sqrt/sin/cos/tan values and the rounded width and "
         "reduced endpoints (x % T) are supplied to the model, which checks them against the exact computation (2^-50)",
         "the theorems are about a function whose period is the constant the code uses (the double 2*pi); the oracle's "
         "dense sampling with numpy's functions bounds the difference to the real period on |x| <= 80 (tolerance 1e-14)",
+        "numpy.exp overflow (+inf) is modelled (extended values EV in the model); underflow/overflow of x**k is not: those "
+        "cases are judged by the oracle only (counted as tie-not-applicable)",
         "sampling oracle: 2001 points + multiples of pi/2 per interval; tolerances 8 ulp (monotone), 1e-15 (sigmoid, tanh)",
     ]
     gen_out = core.LEAN / "Pun/Gen/TrigGen.lean"
